@@ -62,7 +62,7 @@ EXTRA = {
  "C11": " Also: replay resumed from event offsets on the durable-streams store (strict server; lenient server = recorded finding), 11-12 events in one response.",
  "C12": " Also: a resumed subscription followed by a fault; SQLite streaming row by row.",
  "C13": " Also: appends acknowledged after the deadline passed, an application hook after the store, a publisher deadline next to the persistence timeout.",
- "C15": " Also: same-name distinct (function-local) types, instantiated generic types.",
+ "C15": " Also: same-name distinct (function-local) types, instantiated generic types, the state package's own messages (unit in package state).",
  "C16": " Also: every sequence/order of registrations over arbitrary SMT-string names through the public API (5-6 registrations), typed registration with arbitrary TypeNamer names.",
  "C17": " Also: error handler explicitly nil or removed, a refused registration before the replay.",
  "C18": " Also: header timestamps decreasing along the log, messages inside an application envelope type.",
